@@ -370,6 +370,13 @@ func (b *TermBuilder) BVBin(op string, x, y *Term) *Term {
 			return b.BVConst(r, w)
 		}
 	}
+	// canonical operand order for commutative operators (more sharing, cheaper equalities)
+	switch op {
+	case "bvadd", "bvmul", "bvand", "bvor", "bvxor":
+		if x.id > y.id {
+			x, y = y, x
+		}
+	}
 	// light identities
 	switch op {
 	case "bvadd", "bvor", "bvxor":
